@@ -19,6 +19,7 @@ a rectangle-less module is a square of its area around its centre.
 """
 from __future__ import annotations
 
+import zlib
 import math
 from fractions import Fraction as Fr
 
@@ -255,11 +256,16 @@ def render(doc) -> tuple[str, str]:
     n = "Modules:\n"
     for m in doc["modules"]:
         n += f"  {m['name']}:\n"
+        # a third of the non-fixed modules spell the default out (`fixed: false`): the presence of the keyword must not
+        # matter, only its value (seeded C03-f1)
+        spelled = m["kind"] != "fixed" and zlib.crc32(m["name"].encode()) % 3 == 0
         if m["kind"] == "fixed":
             n += "    fixed: true\n"
         elif m["kind"] == "hard":
-            n += "    hard: true\n"
+            n += "    hard: true\n"          # (`hard` and `fixed` keys are mutually exclusive whatever their values)
         else:
+            if spelled:
+                n += "    fixed: false\n"
             parts = m["area"]
             if len(parts) == 1 and parts[0][0] == "_":
                 n += f"    area: {num(parts[0][1])}\n"
